@@ -82,7 +82,7 @@ var (
 		Methods:  allEngineMethods,
 		MinRules: 1, MaxRules: 6, SalSpan: 2,
 		Secs: map[int]int{SecY: 2, SecCall: 2, SecAsgCall: 1, SecAsgKind: 2, SecDiv: 2, SecIdx: 2, SecNil: 2, SecUnknown: 2, SecArg: 2,
-			SecIfKind: 2, SecIfIdx: 2, SecIfNil: 2, SecElif: 2, SecForKind: 2, SecForStep: 1, SecUnb: 1, SecUnbCont: 1, SecConc: 2, SecIfCall: 2, SecForRange: 2, SecMapIdx: 2, SecSetKind: 2, SecSetNil: 2, SecThreeNil: 2, SecIfThreeNil: 2, SecArgCount: 1, SecNilMapSet: 2, SecFuncCall: 2, SecIfFunc: 2, SecThreeSet: 2, SecFnArgKind: 2, SecFnArgCount: 1, SecLocStruct: 1, SecElifCall: 2, SecForAcc: 1},
+			SecIfKind: 2, SecIfIdx: 2, SecIfNil: 2, SecElif: 2, SecForKind: 2, SecForStep: 1, SecUnb: 1, SecUnbCont: 1, SecConc: 2, SecIfCall: 2, SecForRange: 2, SecMapIdx: 2, SecSetKind: 2, SecSetNil: 2, SecThreeNil: 2, SecIfThreeNil: 2, SecArgCount: 1, SecNilMapSet: 2, SecFuncCall: 2, SecIfFunc: 2, SecThreeSet: 2, SecFnArgKind: 2, SecFnArgCount: 1, SecLocStruct: 1, SecElifCall: 2, SecForAcc: 1, SecRangeGrow: 2},
 		MaxSecs: 4, Rets: []int{RetNone, RetNestedV, RetKind, RetTopKind, RetTop, RetUnexp},
 		FaultPct: 75, GatePct: 10, RetPct: 50, MinCalls: 4, MaxCalls: 12, UnknownNamePct: 15, BadNMPct: 15, LongHistPct: 3,
 	}
@@ -176,7 +176,15 @@ func w2(opt *W2Opt) func(plan, sched *simrt.Source, trace bool) *RunOut {
 
 // mixed runs the engine workload most of the time and the same profile through a pool otherwise.
 func mixed(p *Profile) func(plan, sched *simrt.Source, trace bool) *RunOut {
-	opt := &W2Opt{Prof: p, Methods: p.Methods, MaxClients: 4, MaxReqs: 4, Oracle: CheckPoolCalls}
+	methods := p.Methods
+	for _, m := range p.Methods {
+		if m == MSelected {
+			// the pool has one more selected entry point: the one that applies the pool's own execution model
+			methods = cat(p.Methods, []int{MPoolSelEM, MPoolSelEM})
+			break
+		}
+	}
+	opt := &W2Opt{Prof: p, Methods: methods, MaxClients: 4, MaxReqs: 4, Oracle: CheckPoolCalls}
 	return func(plan, sched *simrt.Source, trace bool) *RunOut {
 		if plan.Intn(10) < 7 {
 			return RunW1(p, plan, sched, trace)
